@@ -9,6 +9,16 @@ with every call sequence of a given length over a small alphabet and with seeded
 per call). Verdict only from the BlockWriter.Save log: a save whose ACCEPT majority names another
 block than the processor's manifest or whose Save call named another proposal; two saves whose
 heights do not strictly increase.
+
+Binding G without a hook (BlockSaveLock.tla, harness/internal/c11/force.go): the lock-level specification has
+ProposalProcessors.l as an explicit resource (Process keeps it while the processor runs, Save while the block is
+written, Save = check / enqueue / acquire / act). TLC checks the statement on it under free interleaving, refutes
+it for implementations that decide on a previousSaved read before the lock is owned (BlockSaveLock_stale.cfg) and
+prints every maximal controller schedule (start a call / open the gate of a running processor / of a block write);
+each is forced on the real objects - the stub writer's Manifest and Save park on harness gates so that calls queue
+behind them in the order of the schedule - and the writer's Save log is judged as above (keys with the suffix
+;calls-queued-behind-running-processor). Returns that differ from the specification are model fidelity
+(ctx.extra), never a verdict.
 """
 import os
 import re
@@ -161,6 +171,135 @@ def validate_and_judge(ctx, label, events):
     return len(hs), len(unexplained), saves
 
 
+# ------------------------------------------------------------------ forced schedules (BlockSaveLock.tla)
+def call_name(e):
+    if e["op"] == "Process":
+        return "P.%s" % e["f"]
+    if e["op"] == "Save":
+        return "S.%s.%d.%s" % (e["f"], e["ah"], e["nb"])
+    return "C"
+
+
+def groups_of_hist(entries):
+    """spec side: [">P.P1", ">O.P1", "P.P1=manifest", ...] -> [(command, returns (sorted), writer saves (in order))]"""
+    gs = []
+    for x in entries:
+        if x.startswith(">"):
+            gs.append([x[1:], [], []])
+        elif x.startswith("W."):
+            gs[-1][2].append(x)
+        else:
+            gs[-1][1].append(x)
+    return [(g[0].split(".")[0] if g[0].startswith("C.") else g[0], sorted(r.replace("C.1=", "C=") for r in g[1]), g[2]) for g in gs]
+
+
+def groups_of_events(evs):
+    """real side: the same form from the Cmd / Call / WSave / Ret events of one forced schedule"""
+    names = {}
+    gs = []
+    for e in evs:
+        if e["a"] == "Cmd":
+            gs.append([e["c"].split(".")[0] if e["c"].startswith("C.") else e["c"], [], []])
+        elif e["a"] == "Call":
+            names[e["id"]] = call_name(e)
+        elif e["a"] == "WSave" and gs:
+            gs[-1][2].append("W.%s.%d.%s" % (e["f"], e["h"], e["nb"]))
+        elif e["a"] == "Ret" and gs:
+            gs[-1][1].append("%s=%s" % (names.get(e["id"], "?"), e["res"]))
+    if gs and gs[-1][0] == "end" and not gs[-1][1] and not gs[-1][2]:
+        gs.pop()
+    return [(g[0], sorted(g[1]), g[2]) for g in gs]
+
+
+def forced_phase(ctx, phase):
+    """TLC enumerates the controller schedules of the lock-level specification; each one is forced on the real
+    ProposalProcessors (calls queue behind a processor parked at a harness gate); the writer's Save log is judged."""
+    quick = ctx.tier == "quick"
+    t0 = time.time()
+    # one TLC run per alphabet: the statement on the lock-level model of the pinned design under free interleaving
+    # (any waiter may win the mutex) and, mode "forced", the controller schedules (printed by EmitSched)
+    scheds = []
+    for cfg in (["BlockSaveLock_mc_quick.cfg"] if quick else ["BlockSaveLock_mc_thorough.cfg", "BlockSaveLock_mc_thorough2.cfg"]):
+        r = ctx.tlc("BlockSaveLock", cfg, timeout=2400)
+        found = re.findall(r'^"SCHED((?: \S+)*)"$', r.out, re.M)
+        if not found:
+            raise core.MachineryError("%s printed no schedule:\n%s" % (cfg, r.out[-2000:]))
+        for h in found:
+            ent = h.split()
+            scheds.append({"id": len(scheds), "cmds": [x[1:] for x in ent if x.startswith(">")], "hist": ent})
+    # the forced schedules can tell "height check under the lock" from "height check before the lock": TLC must
+    # refute the statement for the latter family on the same schedule space
+    r = ctx.tlc("BlockSaveLock", "BlockSaveLock_stale.cfg", timeout=1800, allow_violation=True, count=False)
+    if r.violated != "OncePerHeight":
+        raise core.MachineryError("BlockSaveLock_stale.cfg: the forced schedules do not refute OncePerHeight for a height check "
+                                  "made before the mutex is owned (violated: %s) - the schedule family lost its point" % r.violated)
+    ctx.extra["lock_level_model"] = {"check_before_lock_refuted_in_states": r.distinct}
+    phase["lock_tlc"] = round(time.time() - t0, 1)
+
+    t0 = time.time()
+    nshard = 8
+    results = {}
+    errs = []
+
+    def one(k):
+        inp = os.path.join(ctx.work, "forced_in_%d.ndjson" % k)
+        outp = os.path.join(ctx.work, "forced_out_%d.ndjson" % k)
+        core.write_ndjson(inp, [{"id": s["id"], "cmds": s["cmds"]} for s in scheds[k::nshard]])
+        try:
+            ctx.vh(["C11", "force", "--in", inp, "--out", outp], timeout=3000)
+            for r_ in core.read_ndjson(outp):
+                results[r_["id"]] = r_
+        except core.MachineryError as e:
+            errs.append(e)
+
+    ts = [threading.Thread(target=one, args=(k,)) for k in range(nshard)]
+    for t in ts:
+        t.start()
+    for t in ts:
+        t.join()
+    if errs:
+        raise errs[0]
+    if len(results) != len(scheds):
+        raise core.MachineryError("forced schedules: %d results for %d schedules" % (len(results), len(scheds)))
+
+    not_forced = []
+    differs = []
+    saves = 0
+    for s in scheds:
+        r_ = results[s["id"]]
+        evs = [e for e in r_["events"] if e["a"] in ("Call", "Ret", "WSave")]
+        kinds = set(c[0] for c in s["cmds"])
+        ctx.case(["forced"] + s["cmds"], nontrivial="P" in kinds and "S" in kinds,
+                 sample=" ".join(s["hist"]) if len([x for x in s["hist"] if x.startswith("W.")]) > 1 else None)
+        saves += sum(1 for e in evs if e["a"] == "WSave")
+        # verdict: only the writer's Save log, whatever the schedule turned out to be
+        for (i, key, what) in judge(evs):
+            ctx.violation(key + ";calls-queued-behind-running-processor",
+                          "%s; forced schedule: %s; observed: %s" % (what, " ".join(s["cmds"]), " ".join(short(evs, i, 20))),
+                          {"source": "forced", "schedule": s["cmds"], "specified": s["hist"], "status": r_["status"],
+                           "events": r_["events"]})
+        if r_["status"] != "forced":
+            not_forced.append({"schedule": s["cmds"], "status": r_["status"]})
+        elif groups_of_events(r_["events"]) != groups_of_hist(s["hist"]):
+            differs.append({"schedule": s["cmds"], "specified": " ".join(s["hist"]),
+                            "observed": [[g[0]] + g[1] + g[2] for g in groups_of_events(r_["events"])]})
+    ctx.traces += len(scheds) - len(not_forced)
+    ctx.extra["forced_schedules"] = {"schedules": len(scheds), "not_forced": len(not_forced),
+                                     "not_as_specified": len(differs), "writer_saves_observed": saves}
+    if not_forced:
+        ctx.extra["forced_schedules"]["not_forced_samples"] = not_forced[:5]
+    if differs:
+        ctx.extra["forced_schedules"]["not_as_specified_samples"] = differs[:5]
+    phase["lock_forced"] = round(time.time() - t0, 1)
+    if len(not_forced) > len(scheds) // 10:
+        raise core.MachineryError("%d of %d schedules could not be forced (first: %s)" % (len(not_forced), len(scheds), not_forced[0]))
+    if len(differs) > len(scheds) // 10 and not ctx.viol:
+        raise core.MachineryError("%d of %d forced schedules did not go as BlockSaveLock.tla says - the model no longer describes "
+                                  "the code (first: %s)" % (len(differs), len(scheds), differs[0]))
+    if saves < 20:
+        raise core.MachineryError("only %d BlockWriter.Save calls in the forced schedules" % saves)
+
+
 def run(ctx):
     ctx._tv = 0
     quick = ctx.tier == "quick"
@@ -169,7 +308,10 @@ def run(ctx):
                 "(4 proposals incl. one failing, agreed and disagreeing ACCEPT voteproofs, Cancel), plus seeded random histories of "
                 "2-4 goroutines x 2-4 calls over 7 proposals (ok / error / ignorable error / proposal not found) and voteproofs with "
                 "matching, other-proposal, unknown new-block hashes and stale/future heights. non-trivial = history with a "
-                "Process and a Save; distinct by event sequence")
+                "Process and a Save; distinct by event sequence. forced schedules: every maximal controller schedule of the "
+                "lock-level specification with 4 calls over {Process P1, P2 (height 1), P3 (height 2), their agreed Saves, Cancel} "
+                "(quick) / 5 calls over these and 4 calls over 12 calls incl. disagreeing majorities, a failing processor, a proposal "
+                "that is not found (thorough); commands = start a call, open a processor gate, open a block-write gate")
     t0 = time.time()
     ctx.tlc("BlockSave", "BlockSave_mc_quick.cfg" if quick else "BlockSave_mc_thorough.cfg", timeout=1200)
     phase["mc"] = round(time.time() - t0, 1)
@@ -195,6 +337,7 @@ def run(ctx):
         unexp_total += unexp
         saves_total += saves
         phase[label] = round(time.time() - t0, 1)
+    forced_phase(ctx, phase)
     ctx.extra["histories"] = {"validated": total, "not_explained_by_model": unexp_total, "writer_saves_observed": saves_total}
     if saves_total < 20:
         raise core.MachineryError("only %d BlockWriter.Save calls were observed - the drivers do not reach the save path" % saves_total)
@@ -207,6 +350,8 @@ def run(ctx):
         "inputs: an ACCEPT voteproof whose new-block hash is the manifest of a proposal has that proposal's height (a manifest hash "
         "binds its height); ProposalProcessors itself compares only the voteproof's height with previousSaved",
         "context cancellation of a running Process is not driven; cancellation = ProposalProcessors.Cancel()",
+        "forced schedules: calls blocked on ProposalProcessors.l get it in arrival order (sync.Mutex hands over first-in first-out "
+        "when nobody barges; the controller starts a call only when all others are blocked); barging is explored in the model only",
     ]
     ctx.extra["observations"] = [
         "ProposalProcessors.save sets previousSaved before the processor's Save: a Save that fails (other new block, cancelled "
